@@ -739,6 +739,64 @@ func emitDec(o *Out, r *Rng, prop, ty, cls string, b []byte, prev []byte) {
 }
 
 func genCodec(o *Out, r *Rng, n int, tier string) {
+	// seed-independent block: integer timestamps at every boundary of the integer formats, in every legal width of the signed and
+	// the unsigned family (other implementations write non-negative times as uint32 / uint64), in Message and Entry
+	for _, e := range append(append([]int64{}, intEdges...), 2147483649, 4294967294, 1<<62, 1700000000, 2200000000, 4102444800) {
+		for w := 0; w < 4; w++ {
+			for _, uns := range []bool{false, true} {
+				if uns && e < 0 {
+					continue
+				}
+				mk := func() *Node {
+					t := nInt(e)
+					t.W, t.Unsigned = w, uns
+					return t
+				}
+				emitDec(o, r, "C13", "Message", "a", nArr(nStr([]byte("t")), mk(), nMap(), nNil()).Enc(), nil)
+				emitDec(o, r, "C13", "Entry", "a", nArr(mk(), nMap()).Enc(), nil)
+			}
+		}
+	}
+	// seed-independent block: a well-formed message of each mode with its first byte replaced by every other value, followed by another
+	// message: whatever a decoder makes of the lead byte, a success must consume exactly the first value
+	for _, ty := range []string{"Message", "MessageExt", "Forward", "Packed"} {
+		var base *Node
+		switch ty {
+		case "Message":
+			base = nArr(nStr([]byte("tag")), nInt(1700000000), nMap(nStr([]byte("k")), nStr([]byte("v"))), nNil())
+		case "MessageExt":
+			base = nArr(nStr([]byte("tag")), nExt(0, []byte{0x65, 0, 0, 1, 0, 0, 0, 2}), nMap(), nMap(nStr([]byte("chunk")), nStr([]byte("id"))))
+		case "Forward":
+			base = nArr(nStr([]byte("tag")), nArr(nArr(nExt(0, []byte{0x65, 0, 0, 1, 0, 0, 0, 2}), nMap())), nNil())
+		default:
+			base = nArr(nStr([]byte("tag")), nBin(nArr(nExt(0, []byte{0x65, 0, 0, 1, 0, 0, 0, 2}), nMap()).Enc()), nNil())
+		}
+		enc := base.Enc()
+		for lead := 0; lead < 256; lead++ {
+			b := append([]byte{byte(lead)}, enc[1:]...)
+			b = append(b, enc...)
+			emitDec(o, r, "C13", ty, "m", b, nil)
+		}
+	}
+	// seed-independent block: every prefix of small packed streams (entries with fixext8 / ext8 / ext16 times, empty and small
+	// records) through UnmarshalPacked: an entry cut at any byte must be an error, never a panic and never a success
+	for _, st := range [][]*Node{
+		{nArr(nExt(0, []byte{0, 0, 0, 1, 0, 0, 0, 2}), nMap())},
+		{nArr(nExt(0, []byte{0, 0, 0, 1, 0, 0, 0, 2}), nMap()), nArr(nExt(0, []byte{0x65, 0, 0, 1, 0, 0, 0, 2}), nMap(nStr([]byte("k")), nInt(7)))},
+		{nArr(nExt(0, []byte{0, 0, 0, 1, 0, 0, 0, 2}), nMap(nStr([]byte("key")), nStr([]byte("value")))), nArr(nExt(0, []byte{0, 0, 0, 3, 0, 0, 0, 4}), nMap()),
+			nArr(nExt(0, []byte{0, 0, 0, 5, 0, 0, 0, 6}), nMap(nStr([]byte("a")), nArr(nInt(1), nNil())))},
+	} {
+		for wide := 0; wide < 3; wide++ {
+			var s []byte
+			for _, e := range st {
+				e.A[0].W = wide // fixext8, ext8, ext16 headers of the time
+				s = append(s, e.Enc()...)
+			}
+			for cut := 0; cut <= len(s); cut++ {
+				o.emit("C10", "UP", hx(s[:cut]))
+			}
+		}
+	}
 	for i := 0; i < n; i++ {
 		ty := codecTypes[r.Intn(len(codecTypes))]
 		if r.Chance(50) {
